@@ -11,13 +11,13 @@
                       satisfy the laws: `list N` (`ListOps`, the reference reading "bytes = list of bytes")
                       and run-length strings (`RleOps`, used by the harness so that 3 MiB parameters stay
                       small inside Coq).  Every theorem of the Model section holds for BOTH.
-     * onnx writer  : `onnx_variant` = how `onnx.save_model(save_as_external_data=True, location=L)` treats an
+     * onnx writer  : `variant` = how `onnx.save_model(save_as_external_data=True, location=L)` treats an
                       existing sidecar (`WAppend`: new payloads are written at the END of the existing file,
                       offset recorded; `WTruncate`: file restarted) and whether it refuses to run when a file
-                      named L exists RELATIVE TO THE PROCESS CWD (`ov_cwd_check`; onnx 1.22:
+                      named L exists RELATIVE TO THE PROCESS CWD (`v_cwd_check`; onnx 1.22:
                       `if os.path.exists(location): raise FileExistsError`).  The harness determines the
                       variant that the installed onnx exhibits; the theorems quantify over all variants.
-     * jax2onnx     : `save_standard` = onnx writer with threshold, THEN remove the sidecar only when the export
+     * jax2onnx     : `standard_core` = onnx writer with threshold, THEN remove the sidecar only when the export
                       referenced no external data and the sidecar is EMPTY (nothing is truncated or removed
                       before writing); `save_web` = self-contained write, THEN remove any sidecar.
      * reader       : `load` resolves every external reference by (location, offset, length) against the
@@ -64,7 +64,8 @@ Record BlobLaws (O : BlobOps) : Prop := {
 
 (* ------------------------------------------------------------------ assumed third-party behaviour *)
 Inductive writer := WAppend | WTruncate.
-Record onnx_variant := { ov_writer : writer; ov_cwd_check : bool }.
+(* v_remove_before: jax2onnx (since 1d7bd45) removes an existing sidecar BEFORE calling the writer *)
+Record variant := { v_writer : writer; v_cwd_check : bool; v_remove_before : bool }.
 (* where the process CWD is at the time of the export: the output directory itself, a directory without a
    file named like the sidecar, or some other directory that happens to contain such a file *)
 Inductive cwd := CwdDest | CwdClean | CwdClash.
@@ -139,12 +140,13 @@ Definition location_exists (c : cwd) (f : fs) (p : string) : bool :=
   | CwdClash => true
   end.
 
-(* ---- jax2onnx: _save_model_proto(model_proto, dest, mode=...) ; None = the export raised (nothing written) *)
-Definition save_standard (v : onnx_variant) (thr : N) (c : cwd) (f : fs) (p : string) (m : model)
+(* ---- jax2onnx: _save_model_proto(model_proto, dest, mode=...), the part from onnx.save_model on;
+        None = the writer raised (it writes nothing in that case) *)
+Definition standard_core (v : variant) (thr : N) (c : cwd) (f : fs) (p : string) (m : model)
   : option fs :=
-  if ov_cwd_check v && location_exists c f p then None
+  if v_cwd_check v && location_exists c f p then None
   else
-    let f1 := onnx_save_external (ov_writer v) thr f p m in
+    let f1 := onnx_save_external (v_writer v) thr f p m in
     Some (if has_external thr (m_inits m) then f1
           else match lookup f1 (sidecar p) with
                | Some (FData d) => if blen O d =? 0 then remove f1 (sidecar p) else f1
@@ -193,10 +195,23 @@ Definition refs_of (f : fs) (p : string) : list (string * N * N) :=
 
 (* ---- histories of exports to ONE path *)
 Record step := { st_mode : mode; st_cwd : cwd; st_model : model }.
-Definition save (v : onnx_variant) (thr : N) (f : fs) (p : string) (s : step) : option fs :=
+Definition save_core (v : variant) (thr : N) (f : fs) (p : string) (s : step) : option fs :=
   match st_mode s with
-  | Standard => save_standard v thr (st_cwd s) f p (st_model s)
+  | Standard => standard_core v thr (st_cwd s) f p (st_model s)
   | Web => Some (save_web f p (st_model s))
+  end.
+(* standard mode, since 1d7bd45: `if os.path.exists(data_path): os.remove(data_path)` BEFORE onnx.save_model *)
+Definition pre (v : variant) (f : fs) (p : string) (s : step) : fs :=
+  match st_mode s with
+  | Standard => if v_remove_before v then remove f (sidecar p) else f
+  | Web => f
+  end.
+(* one export: the directory afterwards, and whether it returned (true) or raised (false).  A raising export
+   has already performed the removal. *)
+Definition save (v : variant) (thr : N) (f : fs) (p : string) (s : step) : fs * bool :=
+  match save_core v thr (pre v f p s) p s with
+  | Some f' => (f', true)
+  | None => (pre v f p s, false)
   end.
 
 (* ghost state: the last model whose export did not raise, and where the data region written by that
@@ -205,17 +220,18 @@ Record state := { st_fs : fs; st_last : option model; st_lo : N }.
 Definition init (f : fs) : state := {| st_fs := f; st_last := None; st_lo := 0 |}.
 Definition region_start (w : writer) (f : fs) (p : string) : N :=
   match w with WAppend => sidecar_size f p | WTruncate => 0 end.
-Definition exec (v : onnx_variant) (thr : N) (p : string) (st : state) (s : step) : state :=
-  match save v thr (st_fs st) p s with
-  | Some f' => {| st_fs := f'; st_last := Some (st_model s);
-                  st_lo := region_start (ov_writer v) (st_fs st) p |}
-  | None => st
-  end.
-Definition run (v : onnx_variant) (thr : N) (p : string) (st : state) (h : list step) : state :=
+Definition exec (v : variant) (thr : N) (p : string) (st : state) (s : step) : state :=
+  let r := save v thr (st_fs st) p s in
+  if snd r then {| st_fs := fst r; st_last := Some (st_model s);
+                   st_lo := region_start (v_writer v) (pre v (st_fs st) p s) p |}
+  else {| st_fs := fst r; st_last := st_last st; st_lo := st_lo st |}.
+Definition run (v : variant) (thr : N) (p : string) (st : state) (h : list step) : state :=
   fold_left (exec v thr p) h st.
 
 (* a step that cannot raise: web, or a CWD in which no file is named like the sidecar *)
 Definition clean (s : step) : Prop := st_mode s = Web \/ st_cwd s = CwdClean.
+(* a step that is not issued from an unrelated directory containing a file named like the sidecar *)
+Definition no_clash (s : step) : Prop := st_mode s = Web \/ st_cwd s <> CwdClash.
 (* scope of the model: the sidecar name does not hold a serialized model *)
 Definition sidecar_is_data (f : fs) (p : string) : Prop :=
   match lookup f (sidecar p) with Some (FMain _) => False | _ => True end.
@@ -320,11 +336,11 @@ Proof.
 Qed.
 
 (* what one successful export establishes, whatever the directory looked like before *)
-Definition post (v : onnx_variant) (thr : N) (f : fs) (p : string) (s : step) (f' : fs) : Prop :=
+Definition post (v : variant) (thr : N) (f : fs) (p : string) (s : step) (f' : fs) : Prop :=
   load f' p = Some (st_model s) /\
   (forall loc off len, In (loc, off, len) (refs_of f' p) ->
-     loc = sidecar p /\ region_start (ov_writer v) f p <= off /\ off + len <= sidecar_size f' p) /\
-  (ov_writer v = WAppend -> lookup f' (sidecar p) <> None -> ext (data_of f (sidecar p)) (data_of f' (sidecar p))) /\
+     loc = sidecar p /\ region_start (v_writer v) f p <= off /\ off + len <= sidecar_size f' p) /\
+  (v_writer v = WAppend -> lookup f' (sidecar p) <> None -> ext (data_of f (sidecar p)) (data_of f' (sidecar p))) /\
   (forall q, q <> p -> q <> sidecar p -> lookup f' q = lookup f q) /\
   (sidecar_is_data f p -> sidecar_is_data f' p) /\
   (sidecar_size f p = 0 \/ st_mode s = Web -> sidecar_size f' p = expected_sidecar (st_mode s) thr (st_model s)).
@@ -346,17 +362,17 @@ Proof.
 Qed.
 
 Lemma standard_post v thr c f p m f' :
-  save_standard v thr c f p m = Some f' ->
+  standard_core v thr c f p m = Some f' ->
   post v thr f p {| st_mode := Standard; st_cwd := c; st_model := m |} f'.
 Proof.
-  unfold save_standard. destruct (ov_cwd_check v && location_exists c f p); [discriminate|].
+  unfold standard_core. destruct (v_cwd_check v && location_exists c f p); [discriminate|].
   intro H. injection H as Hf'.
   unfold onnx_save_external in *.
-  set (old := match ov_writer v with WAppend => data_of f (sidecar p) | WTruncate => bempty O end) in *.
+  set (old := match v_writer v with WAppend => data_of f (sidecar p) | WTruncate => bempty O end) in *.
   destruct (write_inits thr (sidecar p) old (m_inits m)) as [d' sl] eqn:W.
   destruct (write_inits_spec _ _ _ _ _ _ W) as (Hext & Hload & Hrefs & Hnone & Hlen).
-  assert (Hold : region_start (ov_writer v) f p = blen O old).
-  { unfold region_start, sidecar_size, old. destruct (ov_writer v); [reflexivity | now rewrite (len_empty O L)]. }
+  assert (Hold : region_start (v_writer v) f p = blen O old).
+  { unfold region_start, sidecar_size, old. destruct (v_writer v); [reflexivity | now rewrite (len_empty O L)]. }
   unfold post. simpl st_model. simpl st_mode.
   destruct (has_external thr (m_inits m)) eqn:HE.
   - (* something was written to the sidecar *)
@@ -376,7 +392,7 @@ Proof.
     + intros [Hz|Hw]; [|discriminate Hw]. unfold sidecar_size, data_of at 1. rewrite Hs. rewrite Hlen.
       unfold expected_sidecar.
       assert (Ho : blen O old = 0).
-      { unfold old. destruct (ov_writer v); [exact Hz | apply (len_empty O L)]. }
+      { unfold old. destruct (v_writer v); [exact Hz | apply (len_empty O L)]. }
       rewrite Ho. lia_.
   - (* nothing external: the main file is self-contained; an EMPTY sidecar is removed, a non-empty one stays *)
     destruct (Hnone eq_refl) as [-> ->].
@@ -416,83 +432,159 @@ Proof.
       * intros _. rewrite Hexp. unfold sidecar_size, data_of. rewrite lookup_remove_eq. apply (len_empty O L).
 Qed.
 
-Lemma save_post v thr f p s f' : save v thr f p s = Some f' -> post v thr f p s f'.
+Lemma core_post v thr f p s f' : save_core v thr f p s = Some f' -> post v thr f p s f'.
 Proof.
-  unfold save. destruct s as [md c m]. simpl. destruct md.
+  unfold save_core. destruct s as [md c m]. simpl. destruct md.
   - apply standard_post.
   - intro H. inversion H. now apply (web_post v thr f p {| st_mode := Web; st_cwd := c; st_model := m |}).
 Qed.
 
-Lemma clean_succeeds v thr f p s : clean s -> save v thr f p s <> None.
+(* ---- the export as jax2onnx performs it: optional removal of the old sidecar, then the core *)
+Lemma pre_frame v f p s q : q <> sidecar p -> lookup (pre v f p s) q = lookup f q.
 Proof.
-  unfold clean, save. destruct s as [md c m]. simpl. intros [->| ->].
-  - discriminate.
-  - destruct md; [|discriminate]. unfold save_standard. simpl. rewrite andb_false_r. discriminate.
+  intro Hq. unfold pre. destruct (st_mode s); [|reflexivity].
+  destruct (v_remove_before v); [|reflexivity]. apply lookup_remove_neq. congruence.
 Qed.
-Lemma no_check_succeeds v thr f p s : ov_cwd_check v = false -> save v thr f p s <> None.
+Lemma pre_wf v f p s : sidecar_is_data f p -> sidecar_is_data (pre v f p s) p.
 Proof.
-  intro Hc. unfold save. destruct (st_mode s); [|discriminate].
-  unfold save_standard. rewrite Hc. simpl. discriminate.
+  unfold pre. destruct (st_mode s); [|tauto]. destruct (v_remove_before v); [|tauto].
+  intros _. unfold sidecar_is_data. now rewrite lookup_remove_eq.
+Qed.
+Lemma pre_old v f p s : v_remove_before v = false -> pre v f p s = f.
+Proof. intro H. unfold pre. rewrite H. now destruct (st_mode s). Qed.
+Lemma pre_repaired v f p s :
+  v_remove_before v = true -> st_mode s = Standard -> lookup (pre v f p s) (sidecar p) = None.
+Proof. intros H Hm. unfold pre. rewrite H, Hm. apply lookup_remove_eq. Qed.
+Lemma pre_size v f p s : sidecar_size f p = 0 -> sidecar_size (pre v f p s) p = 0.
+Proof.
+  intro Hz. unfold pre. destruct (st_mode s); [|exact Hz]. destruct (v_remove_before v); [|exact Hz].
+  unfold sidecar_size, data_of. rewrite lookup_remove_eq. apply (len_empty O L).
 Qed.
 
-(* ---- induction over the history *)
-Definition inv (v : onnx_variant) (thr : N) (p : string) (f0 : fs) (st : state) : Prop :=
+Lemma save_ok v thr f p s : snd (save v thr f p s) = true ->
+  save_core v thr (pre v f p s) p s = Some (fst (save v thr f p s)).
+Proof. unfold save. destruct (save_core v thr (pre v f p s) p s); simpl; [reflexivity | discriminate]. Qed.
+Lemma save_raised v thr f p s : snd (save v thr f p s) = false ->
+  save_core v thr (pre v f p s) p s = None /\ fst (save v thr f p s) = pre v f p s.
+Proof. unfold save. destruct (save_core v thr (pre v f p s) p s); simpl; [discriminate | now split]. Qed.
+
+Lemma save_post v thr f p s : snd (save v thr f p s) = true ->
+  post v thr (pre v f p s) p s (fst (save v thr f p s)) /\
+  (forall q, q <> p -> q <> sidecar p -> lookup (fst (save v thr f p s)) q = lookup f q) /\
+  (sidecar_is_data f p -> sidecar_is_data (fst (save v thr f p s)) p).
+Proof.
+  intro Hok. pose proof (core_post _ _ _ _ _ _ (save_ok _ _ _ _ _ Hok)) as Hp. split; [exact Hp|].
+  destruct Hp as (_ & _ & _ & Hq & Hw & _). split.
+  - intros q H1 H2. rewrite Hq by assumption. now apply pre_frame.
+  - intro H0. apply Hw. now apply pre_wf.
+Qed.
+
+Lemma clean_succeeds v thr f p s : clean s -> snd (save v thr f p s) = true.
+Proof.
+  unfold clean, save, save_core. destruct s as [md c m]. simpl. intros [->| ->]; [reflexivity|].
+  destruct md; [|reflexivity]. unfold standard_core. simpl. rewrite andb_false_r. reflexivity.
+Qed.
+Lemma no_check_succeeds v thr f p s : v_cwd_check v = false -> snd (save v thr f p s) = true.
+Proof.
+  intro Hc. unfold save, save_core. destruct (st_mode s); [|reflexivity].
+  unfold standard_core. rewrite Hc. reflexivity.
+Qed.
+Lemma repaired_succeeds v thr f p s :
+  v_remove_before v = true -> no_clash s -> snd (save v thr f p s) = true.
+Proof.
+  intros Hr Hn. unfold save, save_core. destruct (st_mode s) eqn:Hm; [|reflexivity].
+  unfold standard_core.
+  assert (Hl : location_exists (st_cwd s) (pre v f p s) p = false).
+  { destruct Hn as [Hn|Hn]; [congruence|]. unfold location_exists.
+    destruct (st_cwd s); [|reflexivity|congruence]. now rewrite (pre_repaired v f p s Hr Hm). }
+  rewrite Hl, andb_false_r. reflexivity.
+Qed.
+
+(* exactly when and how an export raises: standard mode, writer with the CWD check, and a file named like the
+   sidecar visible from the CWD — after the removal, if the code removes first.  What it leaves behind is the
+   directory after that removal. *)
+Theorem G_raise_effect : forall v thr f p s,
+  snd (save v thr f p s) = false ->
+  fst (save v thr f p s) = pre v f p s /\ st_mode s = Standard /\ v_cwd_check v = true /\
+  (st_cwd s = CwdClash \/
+   (st_cwd s = CwdDest /\ v_remove_before v = false /\ lookup f (sidecar p) <> None)).
+Proof.
+  intros v thr f p s Hr. destruct (save_raised _ _ _ _ _ Hr) as [Hc Hf]. split; [exact Hf|].
+  unfold save_core in Hc. destruct (st_mode s) eqn:Hm; [|discriminate]. split; [reflexivity|].
+  unfold standard_core in Hc.
+  destruct (v_cwd_check v) eqn:Hk; [|discriminate]. split; [reflexivity|].
+  destruct (location_exists (st_cwd s) (pre v f p s) p) eqn:Hl; [|discriminate].
+  unfold location_exists in Hl. destruct (st_cwd s); [right|discriminate|now left].
+  split; [reflexivity|]. destruct (v_remove_before v) eqn:Hb.
+  - rewrite (pre_repaired v f p s Hb Hm) in Hl. discriminate.
+  - split; [reflexivity|]. rewrite (pre_old v f p s Hb) in Hl. intro Hn. now rewrite Hn in Hl.
+Qed.
+
+Theorem G_raise_atomic_partial : forall v thr f p s,
+  v_remove_before v = false -> snd (save v thr f p s) = false -> fst (save v thr f p s) = f.
+Proof.
+  intros v thr f p s Hb Hr. destruct (save_raised _ _ _ _ _ Hr) as [_ Hf]. rewrite Hf. now apply pre_old.
+Qed.
+
+(* ---- induction over the history: facts that hold for every variant *)
+Definition ginv (p : string) (f0 : fs) (st : state) : Prop :=
+  (forall q, q <> p -> q <> sidecar p -> lookup (st_fs st) q = lookup f0 q) /\
+  (sidecar_is_data f0 p -> sidecar_is_data (st_fs st) p).
+
+Lemma ginv_exec v thr p f0 st s : ginv p f0 st -> ginv p f0 (exec v thr p st s).
+Proof.
+  intros (Hfr & Hwf). unfold exec. destruct (snd (save v thr (st_fs st) p s)) eqn:Hs.
+  - destruct (save_post _ _ _ _ _ Hs) as (_ & Hq & Hw). unfold ginv. simpl. split.
+    + intros q Hq1 Hq2. rewrite Hq by assumption. now apply Hfr.
+    + intro H0. apply Hw. now apply Hwf.
+  - destruct (save_raised _ _ _ _ _ Hs) as [_ Hf]. unfold ginv. simpl. rewrite Hf. split.
+    + intros q Hq1 Hq2. rewrite pre_frame by assumption. now apply Hfr.
+    + intro H0. apply pre_wf. now apply Hwf.
+Qed.
+Lemma ginv_run v thr p f0 h : forall st, ginv p f0 st -> ginv p f0 (run v thr p st h).
+Proof.
+  unfold run. induction h as [|s h IH]; intros st Hi; simpl; [exact Hi|]. apply IH. now apply ginv_exec.
+Qed.
+Lemma ginv_init p f0 : ginv p f0 (init f0).
+Proof. unfold ginv, init. simpl. split; auto. Qed.
+
+(* ---- ... and for a code variant whose raising exports are atomic (no removal before the writer) *)
+Definition inv (p : string) (f0 : fs) (st : state) : Prop :=
   match st_last st with
   | None => st_fs st = f0 /\ st_lo st = 0
   | Some m =>
       load (st_fs st) p = Some m /\
       (forall loc off len, In (loc, off, len) (refs_of (st_fs st) p) ->
          loc = sidecar p /\ st_lo st <= off /\ off + len <= sidecar_size (st_fs st) p)
-  end /\
-  (forall q, q <> p -> q <> sidecar p -> lookup (st_fs st) q = lookup f0 q) /\
-  (sidecar_is_data f0 p -> sidecar_is_data (st_fs st) p).
+  end.
 
-Lemma inv_exec v thr p f0 st s : inv v thr p f0 st -> inv v thr p f0 (exec v thr p st s).
+Lemma inv_exec v thr p f0 st s : v_remove_before v = false -> inv p f0 st -> inv p f0 (exec v thr p st s).
 Proof.
-  intros (Hi & Hfr & Hwf). unfold exec. destruct (save v thr (st_fs st) p s) as [f'|] eqn:Hs.
-  - destruct (save_post _ _ _ _ _ _ Hs) as (Hl & Hr & _ & Hq & Hw & _).
-    unfold inv. simpl. repeat split.
-    + exact Hl.
-    + now apply (Hr loc off len).
-    + now apply (Hr loc off len).
-    + now apply (Hr loc off len).
-    + intros q Hq1 Hq2. rewrite Hq by assumption. now apply Hfr.
-    + intro H0. apply Hw. now apply Hwf.
-  - unfold inv. now repeat split.
+  intros Hb Hi. unfold exec. destruct (snd (save v thr (st_fs st) p s)) eqn:Hs.
+  - destruct (save_post _ _ _ _ _ Hs) as ((Hl & Hr & _) & _).
+    unfold inv. simpl. split; [exact Hl|]. intros loc off len Hin. now apply (Hr loc off len).
+  - rewrite (G_raise_atomic_partial _ _ _ _ _ Hb Hs). unfold inv in *. simpl. now destruct st.
 Qed.
-
-Lemma inv_run v thr p f0 h : forall st, inv v thr p f0 st -> inv v thr p f0 (run v thr p st h).
+Lemma inv_run v thr p f0 h : v_remove_before v = false ->
+  forall st, inv p f0 st -> inv p f0 (run v thr p st h).
 Proof.
-  unfold run. induction h as [|s h IH]; intros st Hi; simpl; [exact Hi|].
+  intro Hb. unfold run. induction h as [|s h IH]; intros st Hi; simpl; [exact Hi|].
   apply IH. now apply inv_exec.
 Qed.
-Lemma inv_init v thr p f0 : inv v thr p f0 (init f0).
-Proof. unfold inv, init. simpl. repeat split; auto. Qed.
+Lemma inv_init p f0 : inv p f0 (init f0).
+Proof. unfold inv, init. simpl. split; reflexivity. Qed.
 
 Lemma run_snoc v thr p st h s : run v thr p st (h ++ [s]) = exec v thr p (run v thr p st h) s.
 Proof. unfold run. now rewrite fold_left_app. Qed.
 
-(* T1: after ANY history (any mix of modes, sizes, CWDs, raising exports) the file at p loads to the model of
-   the last export that did not raise, every initializer byte-identical; nothing but p and its sidecar is
-   touched. *)
-Theorem G_load_after_history : forall v thr p f0 h,
-  let st := run v thr p (init f0) h in
-  match st_last st with
-  | Some m => load (st_fs st) p = Some m
-  | None => st_fs st = f0
-  end.
-Proof.
-  intros v thr p f0 h st. destruct (inv_run v thr p f0 h (init f0) (inv_init v thr p f0)) as (Hi & _).
-  fold st in Hi. destruct (st_last st); tauto.
-Qed.
-
+(* T1: whatever happened before (any mix of modes, sizes, CWDs, raising exports, any prior directory), after an
+   export that returns the file at p loads to exactly that model, every initializer byte-identical *)
 Theorem G_load_after_save_partial : forall v thr p f0 h s,
-  save v thr (st_fs (run v thr p (init f0) h)) p s <> None ->
+  snd (save v thr (st_fs (run v thr p (init f0) h)) p s) = true ->
   load (st_fs (run v thr p (init f0) (h ++ [s]))) p = Some (st_model s).
 Proof.
-  intros v thr p f0 h s Hs. rewrite run_snoc. unfold exec.
-  destruct (save v thr (st_fs (run v thr p (init f0) h)) p s) as [f'|] eqn:E; [|congruence].
-  simpl. now destruct (save_post _ _ _ _ _ _ E) as (Hl & _).
+  intros v thr p f0 h s Hs. rewrite run_snoc. unfold exec. rewrite Hs. simpl.
+  now destruct (save_post _ _ _ _ _ Hs) as ((Hl & _) & _).
 Qed.
 
 Theorem G_load_after_save_clean : forall v thr p f0 h s,
@@ -500,8 +592,29 @@ Theorem G_load_after_save_clean : forall v thr p f0 h s,
 Proof. intros. apply G_load_after_save_partial. now apply clean_succeeds. Qed.
 
 Theorem G_load_after_save_no_cwd_check : forall v thr p f0 h s,
-  ov_cwd_check v = false -> load (st_fs (run v thr p (init f0) (h ++ [s]))) p = Some (st_model s).
+  v_cwd_check v = false -> load (st_fs (run v thr p (init f0) (h ++ [s]))) p = Some (st_model s).
 Proof. intros. apply G_load_after_save_partial. now apply no_check_succeeds. Qed.
+
+(* the repaired code: full strength for every history whose LAST step is not issued from an unrelated directory
+   that contains a file named like the sidecar (earlier steps may be anything, including such raising ones) *)
+Theorem G_load_after_save_repaired : forall v thr p f0 h s,
+  v_remove_before v = true -> no_clash s ->
+  load (st_fs (run v thr p (init f0) (h ++ [s]))) p = Some (st_model s).
+Proof. intros. apply G_load_after_save_partial. now apply repaired_succeeds. Qed.
+
+(* code without the removal: a raising export is atomic, so the file always loads to the last export that
+   returned *)
+Theorem G_load_after_history_atomic : forall v thr p f0 h,
+  v_remove_before v = false ->
+  let st := run v thr p (init f0) h in
+  match st_last st with
+  | Some m => load (st_fs st) p = Some m
+  | None => st_fs st = f0
+  end.
+Proof.
+  intros v thr p f0 h Hb st. pose proof (inv_run v thr p f0 h Hb (init f0) (inv_init p f0)) as Hi.
+  fold st in Hi. unfold inv in Hi. destruct (st_last st); tauto.
+Qed.
 
 (* T2: web export after any history: the main file holds no external reference, no sidecar is left, and the
    main file ALONE (a directory containing nothing else) loads to the exported model *)
@@ -511,7 +624,7 @@ Theorem G_web_self_contained : forall v thr p f0 h s,
   refs_of f' p = [] /\ lookup f' (sidecar p) = None /\
   exists mf, lookup f' p = Some mf /\ load [(p, mf)] p = Some (st_model s).
 Proof.
-  intros v thr p f0 h s Hm f'. unfold f'. rewrite run_snoc. unfold exec, save. rewrite Hm. simpl.
+  intros v thr p f0 h s Hm f'. unfold f'. rewrite run_snoc. unfold exec, save, pre, save_core. rewrite Hm. simpl.
   set (f := st_fs (run v thr p (init f0) h)).
   unfold save_web, onnx_save_plain.
   set (mf := FMain {| s_graph := m_graph (st_model s); s_inits := inline_all (m_inits (st_model s)) |}).
@@ -524,26 +637,39 @@ Proof.
     rewrite inline_load. now destruct (st_model s).
 Qed.
 
-(* T3: after any history, every external reference of the main file names the sidecar of p and lies inside
-   [st_lo, size): the region the LAST non-raising export wrote.  st_lo is the size the sidecar had before that
-   export (append writer) or 0 (truncating writer). *)
-Theorem G_stale_sidecar_unreferenced : forall v thr p f0 h m,
+(* T3: after an export that returns, every external reference of the main file names the sidecar of p and lies
+   inside [lo, size): the region THIS export wrote; lo = size of the sidecar the writer found (append writer;
+   0 when the code removed it first) or 0 (truncating writer) *)
+Theorem G_stale_sidecar_unreferenced : forall v thr p f0 h s,
+  let f := st_fs (run v thr p (init f0) h) in
+  snd (save v thr f p s) = true ->
+  let st := run v thr p (init f0) (h ++ [s]) in
+  st_lo st = region_start (v_writer v) (pre v f p s) p /\
+  forall loc off len, In (loc, off, len) (refs_of (st_fs st) p) ->
+    loc = sidecar p /\ st_lo st <= off /\ off + len <= sidecar_size (st_fs st) p.
+Proof.
+  intros v thr p f0 h s f Hs st. unfold st. rewrite run_snoc. unfold exec. fold f. rewrite Hs. simpl.
+  split; [reflexivity|]. destruct (save_post _ _ _ _ _ Hs) as ((_ & Hr & _) & _). exact Hr.
+Qed.
+
+Theorem G_stale_sidecar_unreferenced_atomic : forall v thr p f0 h m,
+  v_remove_before v = false ->
   let st := run v thr p (init f0) h in
   st_last st = Some m ->
   forall loc off len, In (loc, off, len) (refs_of (st_fs st) p) ->
     loc = sidecar p /\ st_lo st <= off /\ off + len <= sidecar_size (st_fs st) p.
 Proof.
-  intros v thr p f0 h m st Hl. destruct (inv_run v thr p f0 h (init f0) (inv_init v thr p f0)) as (Hi & _).
-  fold st in Hi. rewrite Hl in Hi. now destruct Hi.
+  intros v thr p f0 h m Hb st Hl. pose proof (inv_run v thr p f0 h Hb (init f0) (inv_init p f0)) as Hi.
+  fold st in Hi. unfold inv in Hi. rewrite Hl in Hi. now destruct Hi.
 Qed.
 
-(* ... and with the append writer the bytes below st_lo are exactly the old sidecar: an export only ever adds *)
-Theorem G_append_keeps_old_bytes : forall v thr f p s f',
-  ov_writer v = WAppend -> save v thr f p s = Some f' -> lookup f' (sidecar p) <> None ->
-  region_start (ov_writer v) f p = blen O (data_of f (sidecar p)) /\
-  ext (data_of f (sidecar p)) (data_of f' (sidecar p)).
+(* with the append writer the bytes below lo are exactly what the writer found: an export only ever adds *)
+Theorem G_append_keeps_old_bytes : forall v thr f p s,
+  v_writer v = WAppend -> snd (save v thr f p s) = true -> lookup (fst (save v thr f p s)) (sidecar p) <> None ->
+  region_start (v_writer v) (pre v f p s) p = blen O (data_of (pre v f p s) (sidecar p)) /\
+  ext (data_of (pre v f p s) (sidecar p)) (data_of (fst (save v thr f p s)) (sidecar p)).
 Proof.
-  intros v thr f p s f' Hw Hs Hne. destruct (save_post _ _ _ _ _ _ Hs) as (_ & _ & He & _).
+  intros v thr f p s Hw Hs Hne. destruct (save_post _ _ _ _ _ Hs) as ((_ & _ & He & _) & _).
   split; [now rewrite Hw | now apply He].
 Qed.
 
@@ -551,22 +677,66 @@ Theorem G_frame : forall v thr p f0 h q,
   q <> p -> q <> sidecar p -> lookup (st_fs (run v thr p (init f0) h)) q = lookup f0 q.
 Proof.
   intros v thr p f0 h q H1 H2.
-  destruct (inv_run v thr p f0 h (init f0) (inv_init v thr p f0)) as (_ & Hf & _). now apply Hf.
+  destruct (ginv_run v thr p f0 h (init f0) (ginv_init p f0)) as (Hf & _). now apply Hf.
 Qed.
 
 Theorem G_sidecar_stays_data : forall v thr p f0 h,
   sidecar_is_data f0 p -> sidecar_is_data (st_fs (run v thr p (init f0) h)) p.
 Proof.
-  intros v thr p f0 h. destruct (inv_run v thr p f0 h (init f0) (inv_init v thr p f0)) as (_ & _ & Hw). exact Hw.
+  intros v thr p f0 h. destruct (ginv_run v thr p f0 h (init f0) (ginv_init p f0)) as (_ & Hw). exact Hw.
 Qed.
 
-(* the sidecar is exactly what a fresh export would produce — only when it was absent/empty before, or web *)
-Theorem G_sidecar_exact_partial : forall v thr f p s f',
-  save v thr f p s = Some f' ->
-  sidecar_size f p = 0 \/ st_mode s = Web ->
-  sidecar_size f' p = expected_sidecar (st_mode s) thr (st_model s).
+(* the sidecar is exactly as large as what a fresh export writes: when the code removes the old one first, or
+   it was absent/empty before, or for web *)
+Theorem G_sidecar_exact_partial : forall v thr f p s,
+  snd (save v thr f p s) = true ->
+  v_remove_before v = true \/ sidecar_size f p = 0 \/ st_mode s = Web ->
+  sidecar_size (fst (save v thr f p s)) p = expected_sidecar (st_mode s) thr (st_model s).
 Proof.
-  intros v thr f p s f' Hs Hc. destruct (save_post _ _ _ _ _ _ Hs) as (_ & _ & _ & _ & _ & He). now apply He.
+  intros v thr f p s Hs Hc. destruct (save_post _ _ _ _ _ Hs) as ((_ & _ & _ & _ & _ & He) & _). apply He.
+  destruct Hc as [Hb|[Hz|Hw]]; [|left; now apply pre_size|now right].
+  destruct (st_mode s) eqn:Hm; [left|now right].
+  unfold sidecar_size, data_of. rewrite (pre_repaired v f p s Hb Hm). apply (len_empty O L).
+Qed.
+
+(* the repaired code is HISTORY INDEPENDENT: whether an export returns, and the two files it leaves (main file
+   and sidecar, presence and contents), are those of the same export into an empty directory — no byte of an
+   earlier export survives *)
+Theorem G_history_independent : forall v thr f p s,
+  v_remove_before v = true ->
+  snd (save v thr f p s) = snd (save v thr [] p s) /\
+  (snd (save v thr f p s) = true ->
+   lookup (fst (save v thr f p s)) p = lookup (fst (save v thr [] p s)) p /\
+   lookup (fst (save v thr f p s)) (sidecar p) = lookup (fst (save v thr [] p s)) (sidecar p)).
+Proof.
+  intros v thr f p s Hb. unfold save, save_core, pre. rewrite Hb. destruct s as [md c m]. simpl. destruct md.
+  - (* standard *)
+    simpl. unfold standard_core.
+    assert (Hn : lookup (remove f (sidecar p)) (sidecar p) = None) by apply lookup_remove_eq.
+    assert (Hloc : location_exists c (remove f (sidecar p)) p = location_exists c [] p).
+    { unfold location_exists. destruct c; try reflexivity. now rewrite Hn. }
+    rewrite Hloc. destruct (v_cwd_check v && location_exists c [] p); simpl; [split; [reflexivity | discriminate]|].
+    split; [reflexivity|]. intros _.
+    unfold onnx_save_external.
+    assert (Hold : match v_writer v with WAppend => data_of (remove f (sidecar p)) (sidecar p) | WTruncate => bempty O end
+                   = match v_writer v with WAppend => data_of [] (sidecar p) | WTruncate => bempty O end).
+    { destruct (v_writer v); [|reflexivity]. unfold data_of. now rewrite Hn. }
+    rewrite Hold.
+    destruct (write_inits thr (sidecar p) _ (m_inits m)) as [d' sl].
+    destruct (has_external thr (m_inits m)).
+    + split.
+      * now rewrite !lookup_update_eq.
+      * rewrite !(lookup_update_neq _ p (sidecar p)) by (intro X; symmetry in X; now apply sidecar_neq in X).
+        now rewrite !lookup_update_eq.
+    + assert (H1 : lookup (update (remove f (sidecar p)) p (FMain {| s_graph := m_graph m; s_inits := sl |})) (sidecar p) = None).
+      { rewrite lookup_update_neq by (intro X; symmetry in X; now apply sidecar_neq in X). exact Hn. }
+      assert (H2 : lookup (update [] p (FMain {| s_graph := m_graph m; s_inits := sl |})) (sidecar p) = None).
+      { rewrite lookup_update_neq by (intro X; symmetry in X; now apply sidecar_neq in X). reflexivity. }
+      rewrite H1, H2. split; [now rewrite !lookup_update_eq | now rewrite H1, H2].
+  - (* web *)
+    simpl. split; [reflexivity|]. intros _. unfold save_web, onnx_save_plain. split.
+    + rewrite !lookup_remove_neq by apply sidecar_neq. now rewrite !lookup_update_eq.
+    + now rewrite !lookup_remove_eq.
 Qed.
 
 End Laws.
@@ -685,22 +855,29 @@ Notation Lmodel := (model ListOps).
 Notation Lstep := (step ListOps).
 Notation Lfs := (fs ListOps).
 
-Definition load_after_history := G_load_after_history ListOps ListLaws.
 Definition load_after_save_partial := G_load_after_save_partial ListOps ListLaws.
 Definition load_after_save_clean := G_load_after_save_clean ListOps ListLaws.
 Definition load_after_save_no_cwd_check := G_load_after_save_no_cwd_check ListOps ListLaws.
+Definition load_after_save_repaired := G_load_after_save_repaired ListOps ListLaws.
+Definition load_after_history_atomic := G_load_after_history_atomic ListOps ListLaws.
 Definition web_self_contained := G_web_self_contained ListOps.
 Definition stale_sidecar_unreferenced := G_stale_sidecar_unreferenced ListOps ListLaws.
+Definition stale_sidecar_unreferenced_atomic := G_stale_sidecar_unreferenced_atomic ListOps ListLaws.
 Definition append_keeps_old_bytes := G_append_keeps_old_bytes ListOps ListLaws.
 Definition frame := G_frame ListOps ListLaws.
 Definition sidecar_stays_data := G_sidecar_stays_data ListOps ListLaws.
 Definition sidecar_exact_partial := G_sidecar_exact_partial ListOps ListLaws.
+Definition history_independent := G_history_independent ListOps.
+Definition raise_effect := G_raise_effect ListOps.
+Definition raise_atomic_partial := G_raise_atomic_partial ListOps.
 (* the same, for the run-length instance evaluated by the harness *)
-Definition rle_load_after_history := G_load_after_history RleOps RleLaws.
-Definition rle_stale_sidecar_unreferenced := G_stale_sidecar_unreferenced RleOps RleLaws.
+Definition rle_load_after_save_repaired := G_load_after_save_repaired RleOps RleLaws.
+Definition rle_history_independent := G_history_independent RleOps.
 
 (* ---- witnesses (threshold 2: a 3-byte parameter spills, a 1-byte parameter does not) *)
-Definition onnx_1_22 : onnx_variant := {| ov_writer := WAppend; ov_cwd_check := true |}.
+(* installed onnx 1.22 (append writer, CWD-relative existence check) under jax2onnx before / since 1d7bd45 *)
+Definition unrepaired : variant := {| v_writer := WAppend; v_cwd_check := true; v_remove_before := false |}.
+Definition repaired : variant := {| v_writer := WAppend; v_cwd_check := true; v_remove_before := true |}.
 Definition mk (g : N) (b : bytes) : Lmodel := Build_model ListOps g [("w"%string, b)].
 Definition stp (md : mode) (c : cwd) (m : Lmodel) : Lstep := Build_step ListOps md c m.
 Definition big1 := mk 1 [11; 12; 13].
@@ -708,70 +885,103 @@ Definition big2 := mk 2 [21; 22; 23].
 Definition small3 := mk 3 [31].
 Definition P := "m.onnx"%string.
 
-(* full-strength statement: "load p = the model of the LAST export" for every history and every CWD.
-   FALSE of the unchanged code: a second standard export issued from inside the output directory raises
-   FileExistsError (onnx checks `location` relative to the CWD) and the file still holds the first model. *)
-Definition load_after_save_statement : Prop :=
-  forall (v : onnx_variant) thr p (f0 : Lfs) h s,
+(* full-strength statement: "load p = the model of the LAST export" for every history, every CWD. *)
+Definition load_after_save_statement (v : variant) : Prop :=
+  forall thr p (f0 : Lfs) h s,
     load ListOps (st_fs ListOps (run ListOps v thr p (init ListOps f0) (h ++ [s]))) p = Some (st_model ListOps s).
 
-Theorem load_after_save_refuted : ~ load_after_save_statement.
+(* STILL false of the repaired code, only because of the unrelated-CWD clash: the export raises FileExistsError *)
+Theorem load_after_save_refuted : ~ load_after_save_statement repaired.
 Proof.
-  intro H.
-  specialize (H onnx_1_22 2 P [] [stp Standard CwdDest big1] (stp Standard CwdDest big2)).
+  intro H. specialize (H 2 P [] [stp Standard CwdClean big1] (stp Standard CwdClash big2)).
   vm_compute in H. discriminate H.
 Qed.
+(* before the repair it was also false for a plain re-export issued from inside the output directory *)
+Theorem load_after_save_refuted_unrepaired : ~ load_after_save_statement unrepaired.
+Proof.
+  intro H. specialize (H 2 P [] [stp Standard CwdDest big1] (stp Standard CwdDest big2)).
+  vm_compute in H. discriminate H.
+Qed.
+(* ... which the repaired code handles *)
+Example dest_reexport_repaired :
+  let st := run ListOps repaired 2 P (init ListOps []) [stp Standard CwdDest big1; stp Standard CwdDest big2] in
+  load ListOps (st_fs ListOps st) P = Some big2 /\ refs_of ListOps (st_fs ListOps st) P = [(sidecar P, 0, 3)] /\
+  sidecar_size ListOps (st_fs ListOps st) P = 3.
+Proof. vm_compute. repeat split; reflexivity. Qed.
 
-(* the raising export is loud and leaves the previous export intact *)
-Example refuted_witness_state :
-  let st := run ListOps onnx_1_22 2 P (init ListOps []) [stp Standard CwdDest big1; stp Standard CwdDest big2] in
-  st_last ListOps st = Some big1 /\ load ListOps (st_fs ListOps st) P = Some big1.
-Proof. vm_compute. split; reflexivity. Qed.
-
-(* "the directory holds exactly what a fresh export would write" is FALSE (observation, not part of C15):
-   with the append writer a second large export doubles the sidecar, and a following small export leaves the
-   whole sidecar behind, unreferenced *)
-Definition sidecar_exact_statement : Prop :=
-  forall (v : onnx_variant) thr p (f : Lfs) s f',
-    save ListOps v thr f p s = Some f' ->
-    sidecar_size ListOps f' p = expected_sidecar ListOps (st_mode ListOps s) thr (st_model ListOps s).
-
-Theorem sidecar_exact_refuted : ~ sidecar_exact_statement.
+(* "an export that raises leaves the directory as it was": true before the repair, FALSE since: the removal
+   happens before the writer refuses, so the PREVIOUS export loses its sidecar and no longer loads *)
+Definition raise_atomic_statement (v : variant) : Prop :=
+  forall thr (f : Lfs) p s, snd (save ListOps v thr f p s) = false -> fst (save ListOps v thr f p s) = f.
+Theorem raise_atomic_unrepaired : raise_atomic_statement unrepaired.
+Proof. intros thr f p s. now apply raise_atomic_partial. Qed.
+Theorem raise_atomic_refuted : ~ raise_atomic_statement repaired.
 Proof.
   intro H.
-  assert (E := H onnx_1_22 2 P [(sidecar P, FData (O := ListOps) [11; 12; 13])] (stp Standard CwdClean big2)
-                 _ eq_refl).
+  assert (E := H 2 [(sidecar P, FData (O := ListOps) [11; 12; 13])] P (stp Standard CwdClash small3) eq_refl).
+  vm_compute in E. discriminate E.
+Qed.
+Example clash_raise_damages_previous_export :
+  let st := run ListOps repaired 2 P (init ListOps []) [stp Standard CwdClean big1; stp Standard CwdClash small3] in
+  st_last ListOps st = Some big1 /\ load ListOps (st_fs ListOps st) P = None /\
+  map fst (st_fs ListOps st) = [P].
+Proof. vm_compute. repeat split; reflexivity. Qed.
+
+(* "the sidecar is exactly as large as what a fresh export writes": false before the repair (append writer:
+   a second large export doubles the sidecar, a following small export leaves it behind), TRUE since *)
+Definition sidecar_exact_statement (v : variant) : Prop :=
+  forall thr p (f : Lfs) s,
+    snd (save ListOps v thr f p s) = true ->
+    sidecar_size ListOps (fst (save ListOps v thr f p s)) p
+    = expected_sidecar ListOps (st_mode ListOps s) thr (st_model ListOps s).
+
+Theorem sidecar_exact_repaired : sidecar_exact_statement repaired.
+Proof. intros thr p f s Hs. apply sidecar_exact_partial; [exact Hs | now left]. Qed.
+Theorem sidecar_exact_refuted_unrepaired : ~ sidecar_exact_statement unrepaired.
+Proof.
+  intro H.
+  assert (E := H 2 P [(sidecar P, FData (O := ListOps) [11; 12; 13])] (stp Standard CwdClean big2) eq_refl).
   vm_compute in E. discriminate E.
 Qed.
 
-Example sidecar_grows :
-  let st := run ListOps onnx_1_22 2 P (init ListOps []) [stp Standard CwdClean big1; stp Standard CwdClean big2] in
+Example sidecar_grew_unrepaired :
+  let st := run ListOps unrepaired 2 P (init ListOps []) [stp Standard CwdClean big1; stp Standard CwdClean big2] in
   sidecar_size ListOps (st_fs ListOps st) P = 6 /\ refs_of ListOps (st_fs ListOps st) P = [(sidecar P, 3, 3)] /\
   st_lo ListOps st = 3 /\ load ListOps (st_fs ListOps st) P = Some big2.
 Proof. vm_compute. repeat split; reflexivity. Qed.
-
-Example sidecar_left_behind :
-  let st := run ListOps onnx_1_22 2 P (init ListOps [])
-              [stp Standard CwdClean big1; stp Standard CwdClean big2; stp Standard CwdClean small3] in
-  sidecar_size ListOps (st_fs ListOps st) P = 6 /\ refs_of ListOps (st_fs ListOps st) P = [] /\
+Example sidecar_replaced_repaired :
+  let st := run ListOps repaired 2 P (init ListOps []) [stp Standard CwdClean big1; stp Standard CwdClean big2] in
+  sidecar_size ListOps (st_fs ListOps st) P = 3 /\ refs_of ListOps (st_fs ListOps st) P = [(sidecar P, 0, 3)] /\
+  st_lo ListOps st = 0 /\ load ListOps (st_fs ListOps st) P = Some big2.
+Proof. vm_compute. repeat split; reflexivity. Qed.
+Example small_after_large_repaired :
+  let st := run ListOps repaired 2 P (init ListOps [])
+              [stp Standard CwdClean big1; stp Standard CwdClean small3] in
+  map fst (st_fs ListOps st) = [P] /\ refs_of ListOps (st_fs ListOps st) P = [] /\
   load ListOps (st_fs ListOps st) P = Some small3.
 Proof. vm_compute. repeat split; reflexivity. Qed.
-
 Example web_removes_sidecar :
-  let st := run ListOps onnx_1_22 2 P (init ListOps []) [stp Standard CwdClean big1; stp Web CwdDest big2] in
+  let st := run ListOps repaired 2 P (init ListOps []) [stp Standard CwdClean big1; stp Web CwdDest big2] in
   map fst (st_fs ListOps st) = [P] /\ load ListOps (st_fs ListOps st) P = Some big2.
 Proof. vm_compute. split; reflexivity. Qed.
 
-(* non-vacuity: clean steps exist, raising steps exist, both variants of the hypothesis are satisfiable *)
+(* non-vacuity of the hypotheses *)
 Example clean_nonvacuous : clean ListOps (stp Standard CwdClean big1) /\ clean ListOps (stp Web CwdDest big1).
 Proof. split; [right | left]; reflexivity. Qed.
+Example no_clash_nonvacuous :
+  no_clash ListOps (stp Standard CwdDest big1) /\ no_clash ListOps (stp Web CwdClash big1) /\
+  ~ no_clash ListOps (stp Standard CwdClash big1).
+Proof.
+  split; [right; discriminate|]. split; [left; reflexivity|]. intros [H|H]; [discriminate H | now apply H].
+Qed.
 Example raising_step_exists :
-  save ListOps onnx_1_22 2 [(sidecar P, FData (O := ListOps) [0])] P (stp Standard CwdDest small3) = None.
-Proof. reflexivity. Qed.
+  snd (save ListOps repaired 2 [] P (stp Standard CwdClash small3)) = false /\
+  snd (save ListOps unrepaired 2 [(sidecar P, FData (O := ListOps) [0])] P (stp Standard CwdDest small3)) = false.
+Proof. split; reflexivity. Qed.
 Example threshold_is_inclusive :
-  refs_of ListOps (st_fs ListOps (run ListOps onnx_1_22 3 P (init ListOps []) [stp Standard CwdClean big1])) P
+  refs_of ListOps (st_fs ListOps (run ListOps repaired 3 P (init ListOps []) [stp Standard CwdClean big1])) P
     = [(sidecar P, 0, 3)] /\
-  refs_of ListOps (st_fs ListOps (run ListOps onnx_1_22 4 P (init ListOps []) [stp Standard CwdClean big1])) P = [].
+  refs_of ListOps (st_fs ListOps (run ListOps repaired 4 P (init ListOps []) [stp Standard CwdClean big1])) P = [].
 Proof. vm_compute. split; reflexivity. Qed.
 
 (* ================================================================== tie support (harness/c15.py) *)
@@ -806,12 +1016,12 @@ Definition observe (p : string) (raised : bool) (st : state RleOps) : obs :=
    | None, None => true
    | _, _ => false
    end).
-Fixpoint run_obs (v : onnx_variant) (thr : N) (p : string) (st : state RleOps) (h : list (step RleOps))
+Fixpoint run_obs (v : variant) (thr : N) (p : string) (st : state RleOps) (h : list (step RleOps))
   : list obs :=
   match h with
   | [] => []
   | s :: r =>
-      let raised := match save RleOps v thr (st_fs RleOps st) p s with Some _ => false | None => true end in
+      let raised := negb (snd (save RleOps v thr (st_fs RleOps st) p s)) in
       let st' := exec RleOps v thr p st s in
       observe p raised st' :: run_obs v thr p st' r
   end.
